@@ -33,6 +33,8 @@ def run(ctx, rep):
     only_i32(ctx.prog, rep)
     accessor_after_clause(ctx.prog, rep)
     index_helper_postcondition(ctx.prog, rep)
+    from .common import check_refusal_inventory
+    check_refusal_inventory(ctx.prog, rep, "R5-refusal-inventory", ("libtw2_datafile::", "libtw2_map::", "libtw2_zlib_minimal::"))
 
 
 def _error_clauses(body, ir, variant="Malformed"):
